@@ -2010,6 +2010,15 @@ int user_parser (char *buff) {
 
       command_giver = save_command_giver;
 
+      /* the command giver destructed itself in its verb function: destruct_object()
+       * has freed its whole sentence list, there is nothing left to walk */
+      if (save_command_giver->flags & O_DESTRUCTED)
+        {
+          last_verb = 0;
+          illegal_sentence_action = save_illegal_sentence_action;
+          return 1;
+        }
+
       last_verb = 0;
 
       /* was this the right verb? */
